@@ -366,6 +366,28 @@ class SshHostKeyEDDSA(SshHostKeyEDDSABase, SshHostKeyParserBase):
         return self.compose()
 
 
+class SshHostKeyVariant(VariantParsable):
+    """Plain (non-certificate) public keys; the signature key of a certificate is one of these (PROTOCOL.certkeys:
+    chained certificates, where the signature key type is a certificate type itself, are not supported)."""
+
+    _VARIANTS = collections.OrderedDict(itertools.chain.from_iterable([
+        [
+            (host_key_algorithm, (ssh_key_class, ))
+            for host_key_algorithm in ssh_key_class.get_host_key_algorithms()
+        ]
+        for ssh_key_class in [
+            SshHostKeyDSS,
+            SshHostKeyECDSA,
+            SshHostKeyEDDSA,
+            SshHostKeyRSA,
+        ]
+    ]))
+
+    @classmethod
+    def _get_variants(cls):
+        return cls._VARIANTS
+
+
 @attr.s(frozen=True)
 class SshCertTypeParams(Serializable):
     code = attr.ib(validator=attr.validators.instance_of(int))
@@ -802,7 +824,7 @@ class SshHostCertificateV00Base(ParsableBase, SshCertificateBase):  # pylint: di
         parser.parse_parsable('constraints', SshCertConstraintVector)
         parser.parse_bytes('nonce', 4)
         parser.parse_bytes('reserved', 4)
-        parser.parse_parsable('signature_key', SshHostPublicKeyVariant, 4)
+        parser.parse_parsable('signature_key', SshHostKeyVariant, 4)
         parser.parse_parsable('signature', SshCertSignature, 4)
 
     def _compose_host_cert_params(self, composer):
@@ -973,7 +995,7 @@ class SshHostCertificateV01Base(ParsableBase, SshCertificateBase):  # pylint: di
         parser.parse_parsable('critical_options', SshCertCriticalOptionVector)
         parser.parse_parsable('extensions', SshCertExtensionVector)
         parser.parse_bytes('reserved', 4)
-        parser.parse_parsable('signature_key', SshHostPublicKeyVariant, 4)
+        parser.parse_parsable('signature_key', SshHostKeyVariant, 4)
         parser.parse_parsable('signature', SshCertSignature, 4)
 
     def _compose_host_cert_params(self, composer):
